@@ -53,7 +53,13 @@ impl Prop for Since {
             cx.label("operand_built_through_an_operator_route");
         }
         let r = catch(|| {
-            let a = if route < 10 { mk_dt_route(ia, route).set_offset(Offset::Fixed(c.oa)) } else { mk_dt_off(ia, c.oa) };
+            let a = if route < 10 { mk_dt_route(ia, route).set_offset(Offset::Fixed(c.oa)) } else {
+                let (v, local) = mk_dt_off_pin(ia, c.oa);
+                if local {
+                    cx.nt("operand_carries_Offset::Local");
+                }
+                v
+            };
             let b = if route < 10 { mk_dt_route(ib, route / 2).set_offset(Offset::Fixed(c.ob)) } else { mk_dt_off(ib, c.ob) };
             let ab: [i128; 7] = [
                 a.days_since(&b) as i128,
@@ -193,7 +199,10 @@ impl Prop for Inverts {
             cx.nt("unaligned_start");
         }
         let r = catch(|| {
-            let a = mk_dt_off_any(ia, c.off);
+            let (a, local) = mk_dt_off_pin(ia, c.off);
+            if local {
+                cx.nt("operand_carries_Offset::Local");
+            }
             let b = match (c.unit, c.sub) {
                 (0, false) => a.add_days(c.n),
                 (0, true) => a.sub_days(c.n),
